@@ -1,12 +1,24 @@
 """C06 - pack/unpack pairs of glm/packing.hpp and glm/gtc/packing.hpp: re-pack identity, layout, quantisation, clamping, monotonicity."""
 from props.common import *
 LEVEL = 'proof'
-CLAIM = ("Every pack/unpack pair of glm/packing.hpp and glm/gtc/packing.hpp is executed symbolically from its clang IR. Per field of every normalised format (incl. the packUnorm/packSnorm templates) the solver shows: "
-         "pack(unpack(p)) keeps every canonical code, unpack(pack(unpack(p))) == unpack(p) for every word, the packed code equals round(clamp(x)*scale) in IEEE semantics and (independently, "
-         "in exact widened arithmetic) lies within half a quantisation step of x, out-of-range values clamp to the end codes, packing is monotone, unpack is code/scale up to one ulp with exact end points, "
-         "and component k sits in field k with component 0 in the least significant bits. Integer/half/double formats: pure layout and lossless round trips. Small-float format F2x11_1x10: decode value per code, "
-         "truncation within one mantissa step against SMT-LIB to_fp(5,7)/(5,6), special codes, out-of-range behaviour, monotonicity. Shared-exponent format F3x9_E1x5: decode value per code and the pack/unpack "
-         "relations that are decidable with contract models of powf/log2f. RGBM: round trip and alpha quantisation in rounding-erased arithmetic.")
+CLAIM = ("Every pack/unpack pair of glm/packing.hpp and glm/gtc/packing.hpp is executed symbolically from its clang IR. Normalised formats (incl. the packUnorm/packSnorm templates): LAYOUT for every field of every "
+         "format - field k of pack(v) is the reference quantiser applied to component k alone and component k of unpack(p) is the reference decoder applied to field k alone, with field 0 in the least significant bits "
+         "(reference = glm's scalar function of the same (width, signedness, scale), or the first field of that kind of the same format); QUANTISATION on every reference field - the packed code equals "
+         "round(clamp(x)*scale) in IEEE semantics, lies (independently, in exact integer arithmetic over the float's significand) within half a quantisation step of x, out-of-range values clamp to the end codes, packing is monotone, "
+         "pack(unpack(p)) keeps every canonical code, unpack(pack(unpack(p))) == unpack(p) for every code, unpack is code/scale up to one ulp with exact end points; the re-pack obligations are also proved directly on every "
+         "field narrower than 12 bits of every format. Integer/half/double formats: pure layout and lossless round trips. Small-float format F2x11_1x10: decode value per code, truncation within one mantissa step against "
+         "SMT-LIB to_fp(5,7)/(5,6), special codes, out-of-range behaviour, monotonicity over all non-NaN floats. Shared-exponent format F3x9_E1x5 (RGB9E5): decode value per code, shared exponent, per-field rounding to the "
+         "nearest mantissa and re-pack of every normalised code, under exactness contracts for exp2f at integers and a faithful-rounding contract for log2f. RGBM: round trip and alpha quantisation in rounding-erased arithmetic.")
+BOUNDS = ("no bound on words (all 2^8..2^64 patterns) or on float inputs (all non-NaN bit patterns; NaN inputs of the normalised pack functions are undefined behaviour (float->int conversion) and excluded). "
+          "Independent half-step bound: tolerance 1/2 + scale*2^-24 code units (the binary32 rounding of x*scale); 16-bit fields in the quick tier for |x| < 2^-6 and x = +-1 (larger x: via the formula obligation, "
+          "whose right-hand side is round(fl32(clamp(x)*scale)), and the lemma |round(p) - p| <= 1/2 for every binary32 p; directly for all |x| <= 1 in the thorough tier). "
+          "Monotonicity of 16-bit fields: via the formula obligation and the lemma that round-and-convert is monotone in the binary32 product (IEEE multiplication by a positive constant is monotone); directly for fields < 12 bits. "
+          "The quick tier proves the expensive FP obligations on the reference fields only and transfers them with the layout obligations (term identity); the thorough tier also proves them directly on every field.")
+OUTSIDE = ("the float<->half conversion itself (C07; here only layout and re-pack of the half formats); F3x9_E1x5 relies on contracts for exp2f/log2f (exp2f exact at integers in [-126,127]; log2f(x) in [E,E+1] for x in [2^E,2^(E+1)), "
+           "reaching E+1 only within 16 ulps below 2^(E+1); log2f(x) <= -16 or -inf for 0 <= x < 2^-16), and its pack accuracy is decided per binade of the largest component (quick: 6 binades, thorough: all 33); "
+           "direct bit-precise monotonicity of 16-bit fields (two independent multipliers) is only attempted as an optional obligation in the thorough tier; RGBM in rounding-erased arithmetic only.")
+ASSUMPTIONS = ['glibc exp2f is exact for integral arguments in [-126,127] and log2f is faithful: log2f(x) in [E,E+1] for finite x in [2^E,2^(E+1)) and equal to E+1 only for x within 16 ulps below 2^(E+1); log2f(+0) = -inf (used for F3x9_E1x5 only)',
+               'IEEE-754: fl32(x*s) is within half an ulp of x*s and monotone in x for s > 0 (used only to extend the half-step bound of 16-bit fields to |x| >= 2^-6 in the quick tier and for monotonicity of 16-bit fields)']
 F32 = z3.Float32(); F64 = z3.Float64()
 SPLIT_BITS = 9          # fields at least this wide: queries over a float component are split into its sign/exponent classes
 HS16_MAXEXP = 120       # independent half-step check of 16-bit fields: decided for biased exponents <= this (|x| < 2^-6)
@@ -60,6 +72,40 @@ for nm, F in NORM.items():
         U.add('uru_' + nm, [(ct, L)], [(ft, L), (ft, L)], 'stv(o, %s(%s(%s(%s)))); stv(o2, %s(%s));' % (Q, P, Q, C, Q, C))
         U.add('mono_' + nm, [(ft, L), (ft, L)], [(ct, L), (ct, L)], 'stv(o, %s(%s)); stv(o2, %s(ldv<%d,%s>(b)));' % (P, V, P, L, ft))
         U.add('loc_' + nm, [(ct, L), (ct, L)], [(ft, L), (ft, L)], 'stv(o, %s(%s)); stv(o2, %s(ldv<%d,%s>(b)));' % (Q, C, Q, L, ct))
+
+# reference fields: the expensive FP obligations are proved on one reference field per (width, signedness, scale) - glm's scalar function where one exists, otherwise the first such
+# field of the format itself - and every other field is tied to its reference by the layout obligations below (the per-field terms are identical, so these cost nothing).
+SCALAR_REF = {U8: 'Unorm1x8', S8: 'Snorm1x8', U16: 'Unorm1x16', S16: 'Snorm1x16'}
+def ref_of(F, k):
+    t = F.fields[k]
+    if F.ft == 'float' and t in SCALAR_REF: return (SCALAR_REF[t], 0)
+    return (F.nm, F.fields.index(t))
+REFS = {}              # format -> sorted reference fields of that format
+for nm, F in NORM.items():
+    for k in range(F.L): REFS.setdefault(ref_of(F, k)[0], set()).add(ref_of(F, k)[1])
+REFS = {nm: sorted(v) for nm, v in REFS.items()}
+def is_ref(nm, k): return k in REFS.get(nm, ())
+def has_layout(F): return not (F.L == 1 and ref_of(F, 0) == (F.nm, 0))
+for nm, F in NORM.items():
+    if not has_layout(F): continue
+    L = F.L; ft = F.ft; scalar = ref_of(F, 0)[0] != nm
+    assert all((ref_of(F, k)[0] != nm) == scalar for k in range(L))
+    if F.word is not None: pb = ['o[0] = %s(%s);' % (F.pack, _arg(L))]; ub = [_st(L, '%s(a[0])' % F.unpack)]
+    else: pb = ['stv(o, %s(ldv<%d,%s>(a)));' % (F.pack, L, ft)]; ub = ['stv(o, %s(ldv<%d,%s>(a)));' % (F.unpack, L, F.ct)]
+    for k in range(L):
+        rn, r = ref_of(F, k); R = NORM[rn]
+        if scalar:
+            pb.append('o2[%d] = %s(a[%d]);' % (k, R.pack, k))
+            ub.append('o2[%d] = %s(%s(%s));' % (k, R.unpack, R.word, 'a[0] >> %d' % F.offs[k] if F.word is not None else 'a[%d]' % k))
+        elif F.word is not None:
+            pb.append('{ glm::vec<%d,%s> t(0); t[%d] = a[%d]; o2[%d] = %s(t); }' % (L, ft, r, k, k, F.pack))
+            ub.append('o2[%d] = %s(%s(((a[0] >> %d) & %du) << %d))[%d];' % (k, F.unpack, F.word, F.offs[k], (1 << F.fields[k][0]) - 1, F.offs[r], r))
+        else:
+            pb.append('{ glm::vec<%d,%s> t(0); t[%d] = a[%d]; o2[%d] = %s(t)[%d]; }' % (L, ft, r, k, k, F.pack, r))
+            ub.append('{ glm::vec<%d,%s> t(0); t[%d] = a[%d]; o2[%d] = %s(t)[%d]; }' % (L, F.ct, r, k, k, F.unpack, r))
+    rw = NORM[ref_of(F, 0)[0]].word if scalar else (F.word or F.ct)
+    U.add('lay_' + nm, [(ft, L)], [(F.word, 1) if F.word is not None else (F.ct, L), (rw, L)], ' '.join(pb))
+    U.add('unlay_' + nm, [(F.word, 1) if F.word is not None else (F.ct, L)], [(ft, L), (ft, L)], ' '.join(ub))
 
 # integer formats: name -> (word ctype, component ctype, L)
 INTF = {'Int2x8': ('int16_t', 'int8_t', 2), 'Uint2x8': ('uint16_t', 'uint8_t', 2), 'Int4x8': ('int32_t', 'int8_t', 4), 'Uint4x8': ('uint32_t', 'uint8_t', 4),
@@ -122,6 +168,16 @@ def halfstep(xb, c, kind, scale, side):
     """|x*scale - c| <= 1/2 (+ half an ulp of the binary32 product). Exact: a binary32 x times an integer < 2^16 is exact in binary64, and c +- const is exact."""
     P = z3.fpMul(RNE, z3.fpFPToFP(RNE, fp32(xb), F64), z3.FPVal(float(scale), F64)); C = code_to_fp(c, kind, F64); s = z3.FPVal(slack_of(scale), F64)
     return z3.fpLEQ(z3.fpSub(RNE, C, s), P) if side == 'lo' else z3.fpLEQ(P, z3.fpAdd(RNE, C, s))
+def ext(x, n, signed): return z3.SignExt(n - x.size(), x) if signed else z3.ZeroExt(n - x.size(), x)
+def halfstep_int(xb, c, bits, kind, scale, e, side):
+    """the same bound for a normal binary32 x with biased exponent e in [126-bits, 126], in exact integer arithmetic: x = +-M*2^(e-150) with M = 2^23 + mantissa, so
+    |x*scale - c| <= 1/2 + scale*2^-24   <=>   |M*scale - c*2^(150-e)| <= 2^(149-e) + scale*2^(126-e).   No floating-point operation on the specification side."""
+    W = 2 * bits + 34
+    M = z3.ZeroExt(W - 24, z3.Concat(z3.BitVecVal(1, 1), z3.Extract(22, 0, xb)))
+    N = (M << scale.bit_length()) - M if (scale + 1) & scale == 0 else M * z3.BitVecVal(scale, W)
+    N = z3.If(z3.Extract(31, 31, xb) == 1, -N, N)
+    C = ext(c, W, kind == 's') << (150 - e); tol = z3.BitVecVal((1 << (149 - e)) + scale * (1 << (126 - e)), W)
+    return (C - tol <= N) if side == 'lo' else (N <= C + tol)
 def in_range(xb, kind): return z3.And(z3.fpGEQ(fpof(xb), FPV(lo_of(kind), xb.size())), z3.fpLEQ(fpof(xb), FPV(1.0, xb.size())))
 def notnan(xb): return z3.Not(is_nan(xb))
 def maxcode(bits, kind, scale): return z3.BitVecVal(scale, bits)
@@ -137,76 +193,108 @@ def ordv(b):
     w = b.size(); mag = z3.ZeroExt(4, z3.Extract(w - 2, 0, b)); return z3.If(z3.Extract(w - 1, w - 1, b) == 1, -mag, mag)
 def one_bits(w, neg=False): return (0x3f800000 if w == 32 else 0x3ff0000000000000) | ((1 << (w - 1)) if neg else 0)
 
+def _mag(xb): return z3.Extract(30, 0, xb)
+def _sgn(xb): return z3.Extract(31, 31, xb)
 def exp_classes(kind):
-    """sign/exponent classes of a binary32 pattern that together cover every non-NaN value; inside one class clamp() is decided by the bits alone"""
-    mag = lambda xb: z3.Extract(30, 0, xb); sgn = lambda xb: z3.Extract(31, 31, xb)
-    cls = [('ge1', lambda xb: z3.And(sgn(xb) == 0, z3.UGE(mag(xb), 0x3f800000), z3.ULE(mag(xb), 0x7f800000)))]
-    for e in range(127): cls.append(('e%d' % e, lambda xb, e=e: z3.And(sgn(xb) == 0, z3.Extract(30, 23, xb) == e)))
+    """sign/exponent classes of a binary32 pattern that together cover every non-NaN value; inside one class clamp() is decided by the bits alone.
+    -> [(name, predicate, 'high'|'low'|'mid')]: 'high' holds the values >= 1, 'low' those <= the lower end of the range"""
+    cls = [('ge1', lambda xb: z3.And(_sgn(xb) == 0, z3.UGE(_mag(xb), 0x3f800000), z3.ULE(_mag(xb), 0x7f800000)), 'high')]
+    for e in range(127): cls.append(('e%d' % e, lambda xb, e=e: z3.And(_sgn(xb) == 0, z3.Extract(30, 23, xb) == e), 'low' if (kind == 'u' and e == 0) else 'mid'))
     if kind == 'u':
-        cls.append(('neg', lambda xb: z3.And(sgn(xb) == 1, z3.ULE(mag(xb), 0x7f800000))))
+        cls.append(('neg', lambda xb: z3.And(_sgn(xb) == 1, z3.ULE(_mag(xb), 0x7f800000)), 'low'))
     else:
-        cls.append(('le-1', lambda xb: z3.And(sgn(xb) == 1, z3.UGE(mag(xb), 0x3f800000), z3.ULE(mag(xb), 0x7f800000))))
-        for e in range(127): cls.append(('n%d' % e, lambda xb, e=e: z3.And(sgn(xb) == 1, z3.Extract(30, 23, xb) == e)))
+        cls.append(('le-1', lambda xb: z3.And(_sgn(xb) == 1, z3.UGE(_mag(xb), 0x3f800000), z3.ULE(_mag(xb), 0x7f800000)), 'low'))
+        for e in range(127): cls.append(('n%d' % e, lambda xb, e=e: z3.And(_sgn(xb) == 1, z3.Extract(30, 23, xb) == e), 'mid'))
     return cls
-def prove_split(S, fname, spec, pre, labels, classes, cls_arg, bounds, timeout=None, side=True):
-    """prove each labelled goal of spec once per class (the classes partition the precondition); replayable like check_fn"""
-    res = sym_call(U, fname); allv = [t for r in res.ins for t in r]; goals = dict(spec(res.ins, res.outs)); hy0 = list(pre(res.ins)) + res.axioms
-    for label in labels:
-        for cn, cf in classes:
-            on = 'c06.%s.%s.%s' % (fname, label, cn)
-            S.prove(on, goal_term(goals[label]), [cf(cls_arg(res.ins))] + hy0, timeout=timeout or S.cap(60, 180), replay=S._replayer(res, (spec, label), pre, U, fname, 'fp', on), vars_=allv,
-                    functions=['w_' + fname], bounds=bounds + '; class ' + cn)
+def prove_cases(S, fname, cases, pre, bounds, timeout=None, side=False, known=(), extra=None, unwind=16, mandatory=True):
+    """free-form case analysis over one symbolic call: cases = [(case name, hyp(ins) -> [Bool], spec(ins, outs) -> [(label, goal)])]; every goal is proved under pre + hyp.
+    Obligations are named c06.<fname>.<case>.<label>; counterexamples are replayed natively like check_fn's."""
+    res = sym_call(U, fname, unwind=unwind); allv = [t for r in res.ins for t in r]
+    hy0 = list(pre(res.ins)) + res.axioms + (list(extra(res)) if extra else [])
+    fl = ['w_' + fname]
+    for cn, hyp, spec in cases:
+        hy = list(hyp(res.ins)) + hy0
+        for label, g in spec(res.ins, res.outs):
+            on = 'c06.%s.%s.%s' % (fname, cn, label)
+            S._prove_known(on, goal_term(g), hy, res, known, timeout=timeout or S.cap(60, 180), solver='z3', kind='spec', functions=fl, bounds=bounds + '; case ' + cn,
+                           spec_fn=(spec, label), pre_fn=pre, unit=U, fname=fname, mode='fp', vars_=allv, mandatory=mandatory)
     if side:
         groups = {}
         for kd, cond, d in res.obligations: groups.setdefault((kd, d), []).append(cond)
         for (kd, d), conds in groups.items():
             S.prove('c06.%s.%s[%s]' % (fname, kd, d[:50]), z3.Not(z3.Or(*conds)) if len(conds) > 1 else z3.Not(conds[0]), hy0, timeout=S.cap(120, 300), kind=kd, vars_=allv,
-                    replay=S._replayer(res, None, pre, U, fname, 'fp', 'side', side_kind=kd), functions=['w_' + fname], bounds=bounds)
+                    replay=S._replayer(res, None, pre, U, fname, 'fp', 'side', side_kind=kd), functions=fl, bounds=bounds)
+    return res
 
 # ----------------------------------------------------------------------------- jobs (normalised formats)
+def job_layout(nm):
+    """field k of pack(v) == reference quantiser(v_k), component k of unpack(p) == reference decoder(field k of p): position of every field and independence of the other components"""
+    F = NORM[nm]; fl = F.fields; scalar = ref_of(F, 0)[0] != nm
+    def refcode(o, k):
+        r = ref_of(F, k)[1]
+        return o[1][k] if (scalar or F.word is None) else fld(o[1][k], F.offs[r], fl[k][0])
+    def run(S):
+        S.check_fn(U, 'lay_' + nm, lambda i, o: [('field[%d]' % k, F.outcode(o, k) == refcode(o, k)) for k in range(F.L)], lambda i: [notnan(x) for x in i[0]], timeout=S.cap(60, 200),
+                   mutant=(lambda i, o: [('next-component', F.outcode(o, 0) == refcode(o, 1))]) if F.L > 1 and fl[0] == fl[1] else None,
+                   bounds='every non-NaN vector; field k at bit offset %s == %s applied to component k alone' % (F.offs, 'glm::pack' + ref_of(F, 0)[0] if scalar else 'the same function on a vector that is zero elsewhere'))
+        S.check_fn(U, 'unlay_' + nm, lambda i, o: [('component[%d]' % k, o[0][k].bits == o[1][k].bits) for k in range(F.L)], timeout=S.cap(60, 200),
+                   bounds='every word; component k == %s applied to field k alone' % ('glm::unpack' + ref_of(F, 0)[0] if scalar else 'the same function on a word that is zero elsewhere'))
+    return run
+
 def job_quant(nm, sel=None):
-    """layout + quantisation formula + clamping of pack"""
+    """quantisation formula + clamping of pack"""
     F = NORM[nm]; fl = F.fields; sel = list(range(F.L)) if sel is None else sel
     def run(S):
         small = [k for k in sel if fl[k][0] < SPLIT_BITS or F.fw == 64]; big = [k for k in sel if k not in small]
-        def spec(i, o, ks=None):
+        def spec(i, o, ks=None, which=('formula', 'clamp-high', 'clamp-low')):
             g = []
             for k in (small if ks is None else ks):
                 b, kind, sc = fl[k]; c = F.outcode(o, k); xb = i[0][k]; w = xb.size()
-                g.append(('formula[%d]' % k, z3.Or(c == code_formula(xb, b, kind, sc, RNA), c == code_formula(xb, b, kind, sc, RNE))))
-                g.append(('clamp-high[%d]' % k, z3.Implies(z3.fpGEQ(fpof(xb), FPV(1.0, w)), c == maxcode(b, kind, sc))))
-                g.append(('clamp-low[%d]' % k, z3.Implies(z3.fpLEQ(fpof(xb), FPV(lo_of(kind), w)), c == mincode(b, kind, sc))))
+                if 'formula' in which: g.append(('formula[%d]' % k, z3.Or(c == code_formula(xb, b, kind, sc, RNA), c == code_formula(xb, b, kind, sc, RNE))))
+                if 'clamp-high' in which: g.append(('clamp-high[%d]' % k, z3.Implies(z3.fpGEQ(fpof(xb), FPV(1.0, w)), c == maxcode(b, kind, sc))))
+                if 'clamp-low' in which: g.append(('clamp-low[%d]' % k, z3.Implies(z3.fpLEQ(fpof(xb), FPV(lo_of(kind), w)), c == mincode(b, kind, sc))))
             return g
         pre = lambda i: [notnan(x) for x in i[0]]
         def mut(i, o):
-            k = (small or big)[0]; b, kind, sc = fl[k]; c = F.outcode(o, k)
+            k = small[0]; b, kind, sc = fl[k]; c = F.outcode(o, k)
             return [('scale+1', c == code_formula(i[0][k], b, kind, sc + 1, RNA))] + ([('next-component', c == code_formula(i[0][(k + 1) % F.L], b, kind, sc, RNA))] if F.L > 1 else [])
-        S.check_fn(U, 'pack_' + nm, spec, pre, timeout=S.cap(150, 400), mutant=mut if small else None, side=not big, bounds='every non-NaN component value (all bit patterns per component), other components free')
+        if small: S.check_fn(U, 'pack_' + nm, spec, pre, timeout=S.cap(150, 400), mutant=mut, bounds='every non-NaN component value (all bit patterns per component), other components free')
         for k in big:
-            prove_split(S, 'pack_' + nm, lambda i, o, k=k: spec(i, o, [k]), pre, ['formula[%d]' % k, 'clamp-high[%d]' % k, 'clamp-low[%d]' % k], exp_classes(fl[k][1]), lambda i, k=k: i[0][k],
-                        'component %d split into sign/exponent classes covering all non-NaN floats' % k, side=(k == big[0]))
+            cases = [(cn, (lambda i, cf=cf, k=k: [cf(i[0][k])]), (lambda i, o, k=k, wh=('formula',) + (('clamp-high',) if tag == 'high' else ()) + (('clamp-low',) if tag == 'low' else ()): spec(i, o, [k], wh)))
+                     for cn, cf, tag in exp_classes(fl[k][1])]
+            prove_cases(S, 'pack_' + nm, cases, pre, 'component %d split into sign/exponent classes covering all non-NaN floats (clamp obligations in the classes that meet their antecedent)' % k, side=(k == big[0] and not small))
     return run
 
-def job_halfstep(nm, sel=None):
-    """independent of the formula: |x*scale - code| <= 1/2 + half an ulp of the binary32 product, in exact binary64 arithmetic"""
+def job_halfstep(nm, sel=None, emax=126, emin=0, tag=''):
+    """independent of the formula: |x*scale - code| <= 1/2 + half an ulp of the binary32 product, in exact integer arithmetic, per sign/exponent class of x in the range [lo, 1]:
+    tiny x (|x*scale| < 1/2 by the exponent alone) -> code 0; biased exponents 126-bits .. emax -> halfstep_int; x = +-1 is the clamp-high/low obligation of job_quant"""
     F = NORM[nm]; fl = F.fields; sel = list(range(F.L)) if sel is None else sel
     def run(S):
         for k in sel:
-            b, kind, sc = fl[k]
-            def spec(i, o, k=k, b=b, kind=kind, sc=sc):
-                c = F.outcode(o, k)
-                return [('within-half-step-lo[%d]' % k, halfstep(i[0][k], c, kind, sc, 'lo')), ('within-half-step-hi[%d]' % k, halfstep(i[0][k], c, kind, sc, 'hi'))]
-            if b < 12:
-                pre = lambda i, k=k, kind=kind: [notnan(x) for x in i[0]] + [in_range(i[0][k], kind)]
-                def mut(i, o, k=k, b=b, kind=kind, sc=sc):
-                    return [('quarter-step', z3.fpLEQ(z3.fpSub(RNE, code_to_fp(F.outcode(o, k), kind, F64), z3.FPVal(0.25, F64)), z3.fpMul(RNE, z3.fpFPToFP(RNE, fp32(i[0][k]), F64), z3.FPVal(float(sc), F64))))]
-                S.check_fn(U, 'pack_' + nm, spec, pre, timeout=S.cap(200, 500), side=False, name='c06.pack_%s.hs%d' % (nm, k), validate=0, mutant=mut,
-                           bounds='component %d in [%g,1]; tolerance 1/2 + %g code units (binary32 rounding of the product)' % (k, lo_of(kind), sc * 2.0 ** -24))
-            else:
-                cls = [('%s%d' % ('n' if sg else 'e', e), (lambda xb, e=e, sg=sg: z3.And(z3.Extract(31, 31, xb) == sg, z3.Extract(30, 23, xb) == e))) for sg in ((0,) if kind == 'u' else (0, 1)) for e in range(HS16_MAXEXP + 1)]
-                prove_split(S, 'pack_' + nm, spec, lambda i: [], ['within-half-step-lo[%d]' % k, 'within-half-step-hi[%d]' % k], cls, lambda i, k=k: i[0][k], 'component %d, |x| < 2^%d, by sign/exponent class' % (k, HS16_MAXEXP - 126), timeout=S.cap(150, 400), side=False)
+            b, kind, sc = fl[k]; cases = []
+            if emin <= 125 - b:
+                cases.append(('tiny', (lambda i, k=k, b=b: [z3.ULE(z3.Extract(30, 23, i[0][k]), 125 - b)]), (lambda i, o, k=k: [('tiny-to-zero[%d]' % k, F.outcode(o, k) == 0)])))
+            for sg in ((0,) if kind == 'u' else (0, 1)):
+                for e in range(max(126 - b, emin), emax + 1):
+                    cases.append(('%s%d' % ('n' if sg else 'e', e), (lambda i, k=k, e=e, sg=sg: [z3.Extract(31, 23, i[0][k]) == (sg << 8 | e)]),
+                                  (lambda i, o, k=k, e=e, b=b, kind=kind, sc=sc: [('within-half-step-%s[%d]' % (sd, k), halfstep_int(i[0][k], F.outcode(o, k), b, kind, sc, e, sd)) for sd in ('lo', 'hi')])))
+            prove_cases(S, 'pack_' + nm, cases, lambda i: [notnan(x) for x in i[0]],
+                        'component %d in [%g,1] by sign/exponent class (biased exponents <= %d), other components free; tolerance 1/2 + %g code units (binary32 rounding of the product)' % (k, lo_of(kind), emax, sc * 2.0 ** -24), timeout=S.cap(150, 400))
     return run
-def job_mono(nm, sel=None):
+def job_round_lemmas(S):
+    """pure lemmas over a free binary32 product p (no glm code): they carry the half-step bound and monotonicity from the formula obligation  code == toInt(round(fl32(clamp(x)*scale)))
+    to the 16-bit fields where the direct bit-precise proofs are expensive: (a) |round(p) - p| <= 1/2 and (b) p <= q  =>  toInt(round(p)) <= toInt(round(q)), for |p|,|q| <= scale"""
+    p = z3.BitVec('p', 32); q = z3.BitVec('q', 32); P = fp32(p); Q = fp32(q)
+    for (b, kind, sc) in sorted({f for F in NORM.values() if F.fw == 32 for f in F.fields}):
+        rng = lambda v: [z3.fpGEQ(fp32(v), FPV(float(0 if kind == 'u' else -sc))), z3.fpLEQ(fp32(v), FPV(float(sc)))]
+        srt = z3.BitVecSort(b); conv = (lambda f: z3.fpToUBV(RTZ, f, srt)) if kind == 'u' else (lambda f: z3.fpToSBV(RTZ, f, srt))
+        for rn, rm in (('rna', RNA), ('rne', RNE)):
+            R = z3.fpRoundToIntegral(rm, P); nm = 'c06.lemma.%s%d_%d.%s' % (kind, b, sc, rn)
+            S.prove(nm + '.round-within-half-lo', z3.fpLEQ(z3.fpSub(RNE, R, FPV(0.5)), P), rng(p), vars_=[p], bounds='every binary32 p in the product range; R - 1/2 is exact for |R| <= 2^16')
+            S.prove(nm + '.round-within-half-hi', z3.fpLEQ(P, z3.fpAdd(RNE, R, FPV(0.5))), rng(p), vars_=[p], bounds='every binary32 p in the product range')
+            S.prove(nm + '.convert-exact', z3.fpEQ(code_to_fp(conv(R), kind, F32), R), rng(p), vars_=[p], bounds='the integer conversion of the rounded product loses nothing')
+            S.prove(nm + '.round-convert-monotone', code_le(conv(R), conv(z3.fpRoundToIntegral(rm, Q)), kind), rng(p) + rng(q) + [z3.fpLEQ(P, Q)], vars_=[p, q], bounds='all pairs p <= q in the product range')
+def job_mono(nm, sel=None, mandatory=True):
     F = NORM[nm]; fl = F.fields
     sel = [k for k in (range(F.L) if sel is None else sel)]
     def run(S):
@@ -214,14 +302,14 @@ def job_mono(nm, sel=None):
         pre = lambda i: [notnan(x) for x in i[0] + i[1]] + [z3.fpLEQ(fpof(i[0][k]), fpof(i[1][k])) for k in range(F.L)]
         k0 = sel[0]
         S.check_fn(U, 'mono_' + nm, spec, pre, timeout=S.cap(200, 600), side=False, mutant=lambda i, o: [('strict', z3.Not(code_le(F.outcode(o, k0, 1), F.outcode(o, k0, 0), fl[k0][1])))],
-                   bounds='all pairs of non-NaN vectors with x_k <= y_k')
+                   bounds='all pairs of non-NaN vectors with x_k <= y_k', mandatory=mandatory)
     return run
 
 def code_classes(bits, nsplit):
     """partition of the codes of one field by their top nsplit bits"""
     if nsplit == 0: return [('all', lambda c: z3.BoolVal(True))]
     return [('top%d' % t, lambda c, t=t: z3.Extract(bits - 1, bits - nsplit, c) == t) for t in range(1 << nsplit)]
-def job_repack(nm, sel=None):
+def job_repack(nm, sel=None, tops=None):
     F = NORM[nm]; fl = F.fields; sel = list(range(F.L)) if sel is None else sel
     def run(S):
         small = [k for k in sel if fl[k][0] < 12]; big = [k for k in sel if k not in small]
@@ -233,12 +321,13 @@ def job_repack(nm, sel=None):
                 if kind == 's': g.append(('most-negative-to-min[%d]' % k, z3.Implies(z3.Not(canonical(c, b, kind)), r == mincode(b, kind, sc))))
             return g
         def mut(i, o):
-            k = sel[0]; b, kind, sc = fl[k]; c = F.incode(i, k); r = F.outcode(o, k)
+            k = small[0]; b, kind, sc = fl[k]; c = F.incode(i, k); r = F.outcode(o, k)
             return [('also-noncanonical', r == c)] if kind == 's' else [('plus-one', r == c + 1)]
-        S.check_fn(U, 'rt_' + nm, spec, timeout=S.cap(200, 500), mutant=mut if small else None, bounds='every word (all 2^%d), per field' % F.wbits())
+        if small and tops is None: S.check_fn(U, 'rt_' + nm, spec, timeout=S.cap(200, 500), mutant=mut, bounds='every word (all 2^%d), per field' % F.wbits())
         for k in big:
-            labels = ['repack[%d]' % k] + (['most-negative-to-min[%d]' % k] if fl[k][1] == 's' else [])
-            prove_split(S, 'rt_' + nm, lambda i, o, k=k: spec(i, o, [k]), lambda i: [], labels, code_classes(fl[k][0], 2), lambda i, k=k: F.incode(i, k), 'every word, field %d split by its top 2 bits' % k, timeout=S.cap(200, 500), side=False)
+            cl = [(cn, cf) for cn, cf in code_classes(fl[k][0], 3) if tops is None or cn in tops]
+            prove_cases(S, 'rt_' + nm, [(cn, (lambda i, cf=cf, k=k: [cf(F.incode(i, k))]), (lambda i, o, k=k: spec(i, o, [k]))) for cn, cf in cl], lambda i: [], 'every word, field %d split by its top 3 bits' % k, timeout=S.cap(200, 500), side=(k == big[0] and (not small or tops is not None) and (tops is None or 'top0' in tops)))
+        if tops is not None and 'top0' not in tops: return
         # unpack(pack(unpack(p))) == unpack(p)
         def spec2(i, o, ks=None): return [('unpack-pack-unpack[%d]' % k, o[0][k].bits == o[1][k].bits) for k in (small if ks is None else ks)]
         if small: S.check_fn(U, 'uru_' + nm, spec2, timeout=S.cap(200, 500), bounds='every word (all 2^%d), per component' % F.wbits())
@@ -253,12 +342,12 @@ def job_repack(nm, sel=None):
                     S.check_fn(U, 'uru_' + nm, lambda i, o, k=k: spec2(i, o, [k]), lambda i, k=k: [z3.Not(canonical(F.incode(i, k), fl[k][0], fl[k][1]))], name='c06.uru_%s.noncanonical%d' % (nm, k),
                                timeout=S.cap(100, 300), side=False, validate=0, bounds='the non-canonical (most negative) code of field %d' % k)
     return run
-def job_decode(nm):
-    F = NORM[nm]; fl = F.fields; w = F.fw
+def job_decode(nm, sel=None):
+    F = NORM[nm]; fl = F.fields; w = F.fw; sel = list(range(F.L)) if sel is None else sel
     def run(S):
         def spec(i, o):
             g = []
-            for k in range(F.L):
+            for k in sel:
                 b, kind, sc = fl[k]; c = F.incode(i, k); ob = o[0][k].bits
                 g.append(('decode-lower[%d]' % k, ordv(z3.fpToIEEEBV(decode_bound(c, kind, sc, RTN, w))) - 1 <= ordv(ob)))
                 g.append(('decode-upper[%d]' % k, ordv(ob) <= ordv(z3.fpToIEEEBV(decode_bound(c, kind, sc, RTP, w))) + 1))
@@ -268,15 +357,14 @@ def job_decode(nm):
                 g.append(('decode-not-nan[%d]' % k, z3.Not(is_nan(ob))))
             return g
         def mut(i, o):
-            b, kind, sc = fl[0]; c = F.incode(i, 0)
-            return [('scale+1', ordv(o[0][0].bits) <= ordv(z3.fpToIEEEBV(z3.fpDiv(RTP, code_to_fp(c, kind, FSORT[w]), FPV(float(sc + 1), w)))) + 1)] + \
-                   ([('next-field', ordv(z3.fpToIEEEBV(decode_bound(F.incode(i, 1), fl[1][1], fl[1][2], RTN, w))) - 1 <= ordv(o[0][0].bits))] if F.L > 1 else [])
+            k0 = sel[0]; b, kind, sc = fl[k0]; c = F.incode(i, k0)
+            return [('scale+1', ordv(o[0][k0].bits) <= ordv(z3.fpToIEEEBV(z3.fpDiv(RTP, code_to_fp(c, kind, FSORT[w]), FPV(float(sc + 1), w)))) + 1)] + \
+                   ([('next-field', ordv(z3.fpToIEEEBV(decode_bound(F.incode(i, 1), fl[1][1], fl[1][2], RTN, w))) - 1 <= ordv(o[0][0].bits))] if F.L > 1 and 0 in sel else [])
         S.check_fn(U, 'unpack_' + nm, spec, timeout=S.cap(120, 300), mutant=mut,
                    bounds='every word; component k within one ulp of the directed roundings of field_k/scale (signed: max(.,-1)); end codes decode to exactly 0, 1, -1')
     return run
 
 # ----------------------------------------------------------------------------- integer / double / half formats: layout and lossless round trips
-def ext(x, n, signed): return z3.SignExt(n - x.size(), x) if signed else z3.ZeroExt(n - x.size(), x)
 def job_int(nm):
     w, c, L = INTF[nm]; b = ct_bits(c)
     def run(S):
@@ -370,11 +458,10 @@ def job_f2x11_pack(S):
             g.append(('roundtrip-within-one-step%d' % k, z3.Implies(inr, z3.ULT(xb - rb, 1 << (23 - mb)))))
         return g
     S.check_fn(U, 'pu_F2x11_1x10', acc, bounds='components in [smallest positive code value, 65536); other components free')
-def sf_inrange(xb, mb): return z3.Or(z3.fpIsZero(fp32(xb)), z3.And(z3.fpGEQ(fp32(xb), FPV(2.0 ** -15)), z3.fpLT(fp32(xb), FPV(65536.0))))
 def job_f2x11_mono(S):
     def spec(i, o): return [('monotone%d' % k, z3.ULE(fld(o[0][0], off, b), fld(o[0][1], off, b))) for k, (off, b, mb) in enumerate(SF)]
-    pre = lambda i: [sf_inrange(i[0][k], SF[k][2]) for k in range(3)] + [sf_inrange(i[1][k], SF[k][2]) for k in range(3)] + [z3.fpLEQ(fp32(i[0][k]), fp32(i[1][k])) for k in range(3)]
-    S.check_fn(U, 'mono_F2x11_1x10', spec, pre, bounds='all pairs x_k <= y_k with both in {0} u [2^-15, 65536)')
+    pre = lambda i: [z3.Not(z3.fpIsNaN(fp32(x))) for x in i[0] + i[1]] + [z3.fpLEQ(fp32(i[0][k]), fp32(i[1][k])) for k in range(3)]
+    S.check_fn(U, 'mono_F2x11_1x10', spec, pre, bounds='all pairs of non-NaN vectors x_k <= y_k (negative, tiny, huge and infinite values included)')
 def job_f2x11_repack(S):
     def spec(i, o):
         return [('repack%d' % k, z3.Implies(z3.ULE(sf_e(fld(i[0][0], off, b), mb), 30), fld(o[0][0], off, b) == fld(i[0][0], off, b))) for k, (off, b, mb) in enumerate(SF)]
@@ -393,6 +480,94 @@ def _reg_ovf(res, k):
     xb = res.ins[0][k]; mb = SF[k][2]
     return z3.And(z3.fpGEQ(fp32(xb), FPV(65536.0)), z3.Not(z3.fpIsInf(fp32(xb))), z3.Not(z3.Or(z3.And(_sf_e5(xb) == 31, _sf_mt(xb, mb) == 0), z3.And(_sf_e5(xb) == 30, _sf_mt(xb, mb) == (1 << mb) - 1))))
 REGIONS = {'f2x11_negative': _reg_neg, 'f2x11_subminimum': _reg_tiny, 'f2x11_overflow': _reg_ovf}
+
+# ----------------------------------------------------------------------------- shared-exponent format F3x9_E1x5 (RGB9E5): three 9-bit mantissas m_k (first component lowest), 5-bit exponent e on top; value_k = m_k * 2^(e-24)
+E5_MAX = 65408.0        # (2^9-1)/2^9 * 2^(31-15): the largest RGB9E5 value (EXT_texture_shared_exponent, 'sharedexp_max')
+E5_TOL = 0.5 + 2.0 ** -15   # floor(y + 0.5): the binary32 sum y + 0.5 < 1024 is off by at most 2^-15
+def apps_of(terms, name):
+    seen = set(); out = []; st = list(terms)
+    while st:
+        x = st.pop()
+        if x.get_id() in seen: continue
+        seen.add(x.get_id())
+        if z3.is_app(x):
+            if x.decl().name() == name: out.append(x)
+            st.extend(x.children())
+    return sorted(out, key=lambda a: a.get_id())
+def _out_terms(res): return [bits_of(v) for r in res.outs for v in r]
+def e5_exp2_contract(res):
+    """exp2f is exact at integers: for every application exp2f(t) in the outputs, t integral in [-126,127] => exp2f(t) == 2^t (built from the exponent field; no enumeration of arguments)"""
+    axs = []
+    for app in apps_of(_out_terms(res), 'exp232'):
+        t = app.arg(0); n = z3.fpToSBV(RTZ, t, z3.BitVecSort(9))
+        integral = z3.And(z3.fpEQ(z3.fpRoundToIntegral(RTZ, t), t), z3.fpGEQ(t, FPV(-126.0)), z3.fpLEQ(t, FPV(127.0)))
+        axs.append(z3.Implies(integral, app == z3.fpBVToFP(z3.Concat(z3.BitVecVal(0, 1), z3.Extract(7, 0, n + 127), z3.BitVecVal(0, 23)), F32)))
+    return axs
+def e5_log2_contract(res, E):
+    """faithful log2f on the binade E (None: 0 <= x < 2^-16): log2f(x) in [E, E+1], == E+1 only within 16 ulps below 2^(E+1); tiny/zero x: log2f(x) <= -16 (or -inf), not NaN"""
+    axs = []
+    for app in apps_of(_out_terms(res), 'log232'):
+        Mb = z3.fpToIEEEBV(app.arg(0)); ex = z3.Extract(30, 23, Mb); pos = z3.Extract(31, 31, Mb) == 0
+        if E is None: axs.append(z3.Implies(z3.And(pos, z3.ULE(ex, 110)), z3.And(z3.Not(z3.fpIsNaN(app)), z3.fpLEQ(app, FPV(-16.0)))))
+        else: axs.append(z3.Implies(z3.And(pos, ex == E + 127), z3.And(z3.fpGEQ(app, FPV(float(E))), z3.fpLEQ(app, FPV(float(E + 1))), z3.Implies(z3.fpEQ(app, FPV(float(E + 1))), z3.UGE(z3.Extract(22, 0, Mb), (1 << 23) - 16)))))
+    return axs
+def e5_fields(w): return [z3.Extract(9 * k + 8, 9 * k, w) for k in range(3)], z3.Extract(31, 27, w)
+def e5_clamp(xb): x = fp32(xb); return z3.If(z3.fpLT(x, FPV(0.0)), FPV(0.0), z3.If(z3.fpGT(x, FPV(E5_MAX)), FPV(E5_MAX), x))
+def e5_max(i):
+    c = [e5_clamp(x) for x in i[0]]; m = z3.If(z3.fpGT(c[1], c[0]), c[1], c[0]); return z3.If(z3.fpGT(c[2], m), c[2], m)
+def job_f3x9_decode(S):
+    def spec(i, o):
+        m, e = e5_fields(i[0][0])
+        scale = z3.fpBVToFP(z3.Concat(z3.BitVecVal(0, 1), z3.ZeroExt(3, e) + (127 - 24), z3.BitVecVal(0, 23)), F32)
+        return [('component[%d]==m[%d]*2^(e-24)' % (k, k), o[0][k].fp == z3.fpMul(RNE, z3.fpUnsignedToFP(RNE, m[k], F32), scale)) for k in range(3)]
+    S.check_fn(U, 'unpack_F3x9_E1x5', spec, extra_hyps=e5_exp2_contract, timeout=S.cap(100, 300), mutant=lambda i, o: [('next-field', o[0][0].fp == z3.fpMul(RNE, z3.fpUnsignedToFP(RNE, e5_fields(i[0][0])[0][1], F32), FPV(1.0)))],
+               bounds='every 32-bit word; mantissa k at bits 9k..9k+8, exponent at bits 27..31; the product is exact')
+E5_BINADES = [None] + list(range(-16, 16))
+def job_f3x9_pack(binades):
+    """per binade E of the largest clamped component (None: below 2^-16): the shared exponent is max(E,-16)+16 or one more, and with the exponent e the function returned, every mantissa is within 1/2 (+2^-15) of
+    clamp(x_k)/2^(e-24), i.e. the decoded value is within half a mantissa step of x_k; the largest mantissa is normalised (>= 256) unless e == 0"""
+    def run(S):
+        cases = []
+        for E in binades:
+            a = 0 if E is None else E + 16
+            hyp = (lambda i, E=E: [z3.Extract(31, 31, z3.fpToIEEEBV(e5_max(i))) == 0, z3.ULE(z3.Extract(30, 23, z3.fpToIEEEBV(e5_max(i))), 110) if E is None else z3.Extract(30, 23, z3.fpToIEEEBV(e5_max(i))) == E + 127])
+            cn = 'tiny' if E is None else 'E%d' % E
+            cases.append((cn, hyp, (lambda i, o, a=a, E=E: [('shared-exponent', e5_fields(o[0][0])[1] == a if E is None else z3.Or(e5_fields(o[0][0])[1] == a, e5_fields(o[0][0])[1] == a + 1))])))
+            for ev in ((a,) if E is None else (a, a + 1)):
+                if ev > 31: continue
+                def spec(i, o, ev=ev):
+                    m, e = e5_fields(o[0][0]); g = []
+                    for k in range(3):
+                        Y = z3.fpMul(RNE, z3.fpFPToFP(RNE, e5_clamp(i[0][k]), F64), z3.FPVal(2.0 ** (24 - ev), F64)); mf = z3.fpUnsignedToFP(RNE, m[k], F64); tol = z3.FPVal(E5_TOL, F64)
+                        g.append(('quantised-lo%d' % k, z3.fpLEQ(z3.fpSub(RNE, mf, tol), Y))); g.append(('quantised-hi%d' % k, z3.fpLEQ(Y, z3.fpAdd(RNE, mf, tol))))
+                    if ev > 0: g.append(('normalised', z3.Or(*[z3.UGE(x, 256) for x in m])))
+                    return g
+                cases.append(('%s.e%d' % (cn, ev), (lambda i, hyp=hyp: hyp(i)), spec))
+        res = sym_call(U, 'pack_F3x9_E1x5'); allv = [t for r in res.ins for t in r]; pre = lambda i: [notnan(x) for x in i[0]]
+        fixed = e5_exp2_contract(res) + res.axioms + pre(res.ins)
+        for cn, hyp, spec in cases:
+            E = None if cn.startswith('tiny') else int(cn.split('.')[0][1:]); hy = hyp(res.ins) + e5_log2_contract(res, E) + fixed
+            if '.e' in cn: hy.append(e5_fields(res.outs[0][0])[1] == int(cn.split('.e')[1]))
+            for label, g in spec(res.ins, res.outs):
+                on = 'c06.pack_F3x9_E1x5.%s.%s' % (cn, label)
+                S._prove_known(on, g, hy, res, ['KF-C06-F3x9-sharedexp-max'], timeout=S.cap(100, 300), solver='z3', kind='spec', functions=['w_pack_F3x9_E1x5'], spec_fn=(spec, label), pre_fn=pre, unit=U, fname='pack_F3x9_E1x5', mode='fp', vars_=allv,
+                               bounds='every non-NaN vector whose largest clamped component lies in the binade %s; exp2f/log2f by contract' % cn)
+    return run
+def e5_canonical(w): m, e = e5_fields(w); return z3.Or(e == 0, z3.UGE(m[0], 256), z3.UGE(m[1], 256), z3.UGE(m[2], 256))
+def job_f3x9_repack(exps):
+    """pack(unpack(p)) == p for every normalised code (largest mantissa >= 256, or exponent 0), per value of the exponent field"""
+    def run(S):
+        res = sym_call(U, 'rt_F3x9_E1x5'); allv = [t for r in res.ins for t in r]; p = res.ins[0][0]; pre = lambda i: [e5_canonical(i[0][0])]
+        fixed = e5_exp2_contract(res) + res.axioms + pre(res.ins)
+        def spec(i, o):
+            mi, ei = e5_fields(i[0][0]); mo, eo = e5_fields(o[0][0])
+            return [('repack-mantissa%d' % k, mo[k] == mi[k]) for k in range(3)] + [('repack-exponent', eo == ei)]
+        for ev in exps:
+            hy = [e5_fields(p)[1] == ev] + (e5_log2_contract(res, None) + e5_log2_contract(res, -16) if ev == 0 else e5_log2_contract(res, ev - 16)) + fixed
+            for label, g in spec(res.ins, res.outs):
+                S._prove_known('c06.rt_F3x9_E1x5.e%d.%s' % (ev, label), g, hy, res, ['KF-C06-F3x9-sharedexp-max-repack'], timeout=S.cap(100, 300), solver='z3', kind='spec', functions=['w_rt_F3x9_E1x5'], spec_fn=(spec, label), pre_fn=pre, unit=U,
+                               fname='rt_F3x9_E1x5', mode='fp', vars_=allv, bounds='every normalised word with exponent field %d; exp2f/log2f by contract' % ev)
+    return run
 
 # ----------------------------------------------------------------------------- RGBM (rounding-erased)
 def job_rgbm(t):
@@ -413,16 +588,43 @@ def job_rgbm(t):
 
 def jobs(tier):
     q = tier == 'quick'; J = []
+    # layout of every field of every format against its reference field
     for nm, F in NORM.items():
-        mb = max(b for b, _, _ in F.fields)
-        J.append(('quant_' + nm, job_quant(nm))); J.append(('decode_' + nm, job_decode(nm)))
-        if F.fw == 32: J.append(('halfstep_' + nm, job_halfstep(nm)))
-        if mb < 12: J.append(('mono_' + nm, job_mono(nm, [k for k in range(F.L) if F.fields[k][0] < 12])))
-        J.append(('repack_' + nm, job_repack(nm)))
+        if has_layout(F): J.append(('layout_' + nm, job_layout(nm)))
+    # the FP obligations on the reference fields
+    for nm, refs in REFS.items():
+        F = NORM[nm]
+        for k in refs:
+            b = F.fields[k][0]; tg = '%s_f%d' % (nm, k)
+            J.append(('quant_' + tg, job_quant(nm, [k]))); J.append(('decode_' + tg, job_decode(nm, [k])))
+            if F.fw == 32:
+                J.append(('halfstep_' + tg, job_halfstep(nm, [k], emax=126 if b < 12 else HS16_MAXEXP)))
+                if b >= 12 and not q: J += [('halfstep_%s_e%d' % (tg, e), job_halfstep(nm, [k], emax=e, emin=e)) for e in range(HS16_MAXEXP + 1, 127)]
+            if b < 12: J.append(('mono_' + tg, job_mono(nm, [k])))
+            elif not q: J.append(('mono_' + tg, job_mono(nm, [k], mandatory=False)))
+            if b >= 12: J += [('repack_%s_%s' % (tg, h), job_repack(nm, [k], tops=tp)) for h, tp in (('lo', ('top0', 'top1', 'top2', 'top3')), ('hi', ('top4', 'top5', 'top6', 'top7')))]
+    J.append(('round_lemmas', job_round_lemmas))
+    # re-pack obligations directly on every field narrower than 12 bits of every format
+    for nm, F in NORM.items():
+        small = [k for k in range(F.L) if F.fields[k][0] < 12]
+        if small: J.append(('repack_' + nm, job_repack(nm, small)))
+    if not q:       # thorough: the reference-field obligations also directly on every other field
+        for nm, F in NORM.items():
+            rest = [k for k in range(F.L) if not is_ref(nm, k)]; small = [k for k in rest if F.fields[k][0] < 12]; big = [k for k in rest if k not in small]
+            if not rest: continue
+            J.append(('all_quant_' + nm, job_quant(nm, rest))); J.append(('all_decode_' + nm, job_decode(nm, rest)))
+            if small and F.fw == 32: J.append(('all_halfstep_' + nm, job_halfstep(nm, small)))
+            if small: J.append(('all_mono_' + nm, job_mono(nm, small)))
+            for k in big: J.append(('all_repack_%s_f%d' % (nm, k), job_repack(nm, [k])))
     for nm in INTF: J.append(('int_' + nm, job_int(nm)))
     for nm in ('I3x10_1x2', 'U3x10_1x2'): J.append(('int_' + nm, job_3x10(nm)))
     J.append(('double2x32', job_double)); J.append(('half', job_half))
     for L in (1, 2, 3, 4): J.append(('halfL%d' % L, job_halfL(L)))
     for t in ('float', 'double'): J.append(('rgbm_' + t, job_rgbm(t)))
     J += [('f2x11_decode', job_f2x11_decode), ('f2x11_pack', job_f2x11_pack), ('f2x11_mono', job_f2x11_mono), ('f2x11_repack', job_f2x11_repack)]
+    J.append(('f3x9_decode', job_f3x9_decode))
+    for grp in ([[None, -16], [-1, 0], [14, 15]] if q else [E5_BINADES[j:j + 3] for j in range(0, len(E5_BINADES), 3)]):
+        J.append(('f3x9_pack_%s' % '_'.join('tiny' if E is None else 'E%d' % E for E in grp), job_f3x9_pack(grp)))
+    for grp in ([[0, 1], [15, 16], [30, 31]] if q else [list(range(j, j + 4)) for j in range(0, 32, 4)]):
+        J.append(('f3x9_repack_e%s' % '_'.join(str(e) for e in grp), job_f3x9_repack(grp)))
     return J
